@@ -12,41 +12,37 @@ OUTSIDE = ('histories longer than the stated number of operations; vector sizes 
            'the alignas(32)/alignas(64) payloads; exceptions thrown by element constructors')
 
 
-HIST_FLAGS = ['--div-by-zero-check']
-HIST_RT = {'VF_MALLOC_U32': 1, 'VF_MALLOC_CAP': 16}
-
-
-def hist(n, ops_q, ops_t, max_q, max_t):
-    def b(ops, mx):
-        return ('two SmallVector<Elem,%d> objects A and B, both initially empty; every history of up to %d operations out '
-                'of 25 kinds (push_back const&/&&/emplace_back, pop_back, erase at any position, resize(c)/resize(c,value) '
-                'with c in {0,N,N+1,MAX}, reserve(c) with c in {1,N+1,MAX+1}, clear, copy/move assignment in both directions, '
-                'self assignment, destroy + default/count/count+value/initializer-list/copy/move construction, writes '
-                'through operator[]/front/back/iterators, push on B), explored as a tree; element values and positions '
-                'symbolic; sizes <= %d' % (n, ops, mx))
+def hist(n, mx):
+    kinds = ('25 kinds: push_back const&/&&/emplace_back, pop_back, erase at any position, resize(c)/resize(c,value) with c in '
+             '{0,N,N+1,MAX}, reserve(c) with c in {1,N+1,MAX+1}, clear, copy/move assignment in both directions, self '
+             'assignment, destroy + default/count/count+value/initializer-list/copy/move construction, writes through '
+             'operator[]/front/back/iterators, push on B')
+    bq = ('two SmallVector<Elem,%d> objects A and B, initially empty; every history of one state-building operation (push, '
+          'resize to N/N+1/MAX, reserve(N+1), B = A, initializer-list construction, push on B) followed by one operation of '
+          'any kind (%s), explored as a tree; element values and positions symbolic; sizes <= %d' % (n, kinds, mx))
+    bt = ('two SmallVector<Elem,%d> objects A and B, initially empty; every history of two operations of any kind (%s), '
+          'explored as a tree; element values and positions symbolic; sizes <= %d' % (n, kinds, mx))
     return {'name': 'history_n%d' % n, 'src': 'history.cpp', 'engine': 'cbmc',
-            'defs': {'VF_N': n, 'VF_OPS': ops_q, 'VF_MAX': max_q}, 'unwind': max_q + 2, 'timeout': 280,
-            'checks': HIST_FLAGS, 'rt_defs': HIST_RT, 'leak_check': True, 'bounds': b(ops_q, max_q),
-            'thorough': {'defs': {'VF_N': n, 'VF_OPS': ops_t, 'VF_MAX': max_t}, 'unwind': max_t + 2, 'timeout': 1700,
-                         'bounds': b(ops_t, max_t)}}
+            'defs': {'VF_N': n, 'VF_OPS': 2, 'VF_MAX': mx, 'VF_FULL': 0}, 'unwind': mx + 2, 'timeout': 280,
+            'rt_defs': {'VF_MALLOC_U32': 1, 'VF_MALLOC_CAP': 8}, 'leak_check': True, 'bounds': bq,
+            'thorough': {'defs': {'VF_N': n, 'VF_OPS': 2, 'VF_MAX': mx, 'VF_FULL': 1}, 'timeout': 1700, 'bounds': bt}}
 
 
-def align(a, n, ops_q, max_q, ops_t, max_t):
-    def b(ops, mx):
-        return ('SmallVector<alignas(%d) payload,%d>; %d symbolic operations out of reserve/push_back/emplace_back/resize/'
-                'pop_back with symbolic counts; sizes <= %d; plain operator new places each block at any 16-aligned address'
-                % (a, n, ops, mx))
+def align(a, n):
+    def b(full):
+        return ('SmallVector<alignas(%d) payload,%d>: inline fill, inline->heap growth, reserve on empty + resize%s; '
+                'concrete sizes <= %d; plain operator new places every block at ANY 16-aligned address (symbolic)'
+                % (a, n, ', heap->heap growth by push and by resize, pop, clear back to inline' if full else '', 2 * n + 2))
     return {'name': 'align%d_n%d' % (a, n), 'src': 'align.cpp', 'engine': 'cbmc',
-            'defs': {'VF_ALIGN': a, 'VF_N': n, 'VF_OPS': ops_q, 'VF_MAX': max_q}, 'unwind': max_q + 2, 'timeout': 280,
-            'rt_defs': {'VF_ADDR_AWARE': 1, 'VF_AA_DYNAMIC': 1}, 'bounds': b(ops_q, max_q),
-            'thorough': {'defs': {'VF_ALIGN': a, 'VF_N': n, 'VF_OPS': ops_t, 'VF_MAX': max_t}, 'unwind': max_t + 2,
-                         'timeout': 1700, 'bounds': b(ops_t, max_t)}}
+            'defs': {'VF_ALIGN': a, 'VF_N': n, 'VF_OPS': 1}, 'unwind': 2 * n + 4, 'timeout': 280,
+            'rt_defs': {'VF_ADDR_AWARE': 1, 'VF_AA_DYNAMIC': 1}, 'bounds': b(False),
+            'thorough': {'defs': {'VF_ALIGN': a, 'VF_N': n, 'VF_OPS': 2}, 'timeout': 1700, 'bounds': b(True)}}
 
 
 INSTANCES = [
-    hist(1, 2, 3, 4, 4),
-    hist(2, 2, 3, 5, 5),
-    hist(4, 2, 3, 6, 6),
-    align(32, 2, 2, 3, 3, 4),
-    align(64, 1, 2, 3, 3, 4),
+    hist(1, 4),
+    hist(2, 5),
+    hist(4, 6),
+    align(32, 2),
+    align(64, 1),
 ]
